@@ -112,15 +112,21 @@ Definition angle_arr (ax : nat) (deg : bool) (o : idx -> K) : idx -> K :=
   let a := acosf (clipf (dot3 (vec_at o i) (vec_at o (set_nth ax (nth ax i 0%nat + 1)%nat i)))) in
   if deg then degf a else a.
 
+(* tabulate an index function on its shape (identity on in-range indices, lemma memo_in; keeps the
+   evaluation of nested array expressions cheap) *)
+Definition memo (sh : list nat) (f : idx -> K) : idx -> K := of_list 0 sh (to_list sh f).
+
 (* ---------- emergent magnetic field (tools.py:342-348) and its divergence ---------- *)
+Definition emergent_pt (m d0 d1 d2 : idx -> K) (i : idx) : vec :=
+  (dot3 (vec_at m i) (cross3 (vec_at d1 i) (vec_at d2 i)),
+   dot3 (vec_at m i) (cross3 (vec_at d2 i) (vec_at d0 i)),
+   dot3 (vec_at m i) (cross3 (vec_at d0 i) (vec_at d1 i))).
 Definition emergent (sh : list nat) (h : list K) (per : list bool) (m : idx -> K) (valid : idx -> bool)
   : idx -> K :=
-  let d := fun ax => diff_nd K sh 3 ax 1 (nth ax h 0) (nth ax per false) true m valid in
+  let d := fun ax => memo (sh ++ [3%nat])
+                          (diff_nd K sh 3 ax 1 (nth ax h 0) (nth ax per false) true m valid) in
   let d0 := d 0%nat in let d1 := d 1%nat in let d2 := d 2%nat in
-  arr_of (fun i =>
-    (dot3 (vec_at m i) (cross3 (vec_at d1 i) (vec_at d2 i)),
-     dot3 (vec_at m i) (cross3 (vec_at d2 i) (vec_at d0 i)),
-     dot3 (vec_at m i) (cross3 (vec_at d0 i) (vec_at d1 i)))).
+  fun i => vcomp (last i 0%nat) (emergent_pt m d0 d1 d2 (removelast i)).
 
 (* Field.div: sum over the components of component.diff(its own direction); sum() starts at 0 *)
 Definition comp_arr (c : nat) (f : idx -> K) : idx -> K := fun i => f (removelast i ++ [c]).
@@ -129,9 +135,6 @@ Definition div3 (sh : list nat) (h : list K) (per : list bool) (f : idx -> K) (v
   let d := fun ax => diff_nd K sh 1 ax 1 (nth ax h 0) (nth ax per false) true
                              (fun i => f (removelast i ++ [ax])) valid in
   fun i => 0 + d 0%nat (i ++ [0%nat]) + d 1%nat (i ++ [0%nat]) + d 2%nat (i ++ [0%nat]).
-
-(* tabulate an index function on its shape (identity on in-range indices; keeps evaluation cheap) *)
-Definition memo (sh : list nat) (f : idx -> K) : idx -> K := of_list 0 sh (to_list sh f).
 
 (* count_bps (tools.py:650-657): the list of local Bloch-point numbers along [dir] before rounding,
    c4 = 1/(4 pi); a0 < a1 are the two other axes *)
